@@ -68,12 +68,26 @@ class Transport:
             return e
         return None
 
+    async def _anext(self):
+        """like _next, but a feed entry may be an async callable (it may yield to the loop before answering)"""
+        import inspect
+        while self.feed:
+            e = self.feed.pop(0)
+            if callable(e):
+                e = e(self)
+                if inspect.isawaitable(e):
+                    e = await e
+                if e is None:
+                    continue
+            return e
+        return None
+
     async def readline(self):
         self.reads += 1
         if self.reads > 200:
             raise RuntimeError('driver: too many reads')
         if self.buf is None or len(self.buf) == 0:
-            self.buf = self._next()
+            self.buf = await self._anext()
             if self.buf is None:
                 return b''
         data = self.buf
@@ -89,7 +103,7 @@ class Transport:
 
     async def readexactly(self, k):
         if self.buf is None or len(self.buf) == 0:
-            self.buf = self._next()
+            self.buf = await self._anext()
             if self.buf is None:
                 raise asyncio.IncompleteReadError(b'', k)
         if len(self.buf) < k:
